@@ -26,7 +26,7 @@ var (
 	reC04DropCol = regexp.MustCompile("(?is)DROP COLUMN [`\"](\\w+)[`\"]")
 )
 
-func c04Plan(dialect string, changes []schema.Change) (stmts []string, err error) {
+func c04Plan(dialect string, changes []schema.Change, mode int) (stmts []string, err error) {
 	defer func() {
 		if p := recover(); p != nil {
 			err = fmt.Errorf("panic: %v", p)
@@ -36,7 +36,7 @@ func c04Plan(dialect string, changes []schema.Change) (stmts []string, err error
 	if pl == nil {
 		return nil, fmt.Errorf("no planner for %s", dialect)
 	}
-	plan, err := pl.PlanChanges(context.Background(), "p", changes)
+	plan, err := pl.PlanChanges(context.Background(), "p", changes, c04Mode(mode))
 	if err != nil {
 		return nil, err
 	}
